@@ -150,6 +150,10 @@ HARNESSES = {
     "H8b": (_b_live("F1"), {"A": ["printP"], "B": ["stop", "start", "refresh"]}, "live", 0),
     "H9": (_b_live("F1"), {"A": ["printP"], "B": ["printQ"]}, "live", 0),
     "H10": (_b_live("F1", transient=True), {"A": ["printP"], "B": ["stop"]}, "live", 0),
+    # refresh()/update() hold the live lock from rendering to the write: these must be atomic against each other
+    "H11": (_b_live("F1\nF2\nF3"), {"A": ["refresh"], "B": ["upd_same"]}, "live", 0),
+    "H12": (_b_live("F1"), {"A": ["refresh"], "B": ["upd_tall"]}, "live", 0),
+    "H13": (_b_live("F1\nF2\nF3"), {"A": ["upd_tall"], "B": ["upd_same"]}, "live", 0),
 }
 
 
@@ -233,7 +237,7 @@ def sequential_reference(hid):
 PLAN = {
     "quick": [(h, "coarse", 2) for h in HARNESSES] + [(h, "shared", 1) for h in HARNESSES if h != "H7x"],
     "thorough": [(h, "coarse", 3) for h in HARNESSES] + [(h, "line", 1) for h in HARNESSES]
-                + [(h, "shared", 2) for h in ("H1", "H2", "H4", "H5g", "H5s", "H8a", "H9", "H10", "H7", "H3", "H6", "H8b")],
+                + [(h, "shared", 2) for h in ("H1", "H2", "H4", "H5g", "H5s", "H8a", "H9", "H10", "H11", "H12", "H13", "H7", "H3", "H6", "H8b")],
 }
 NSPLIT = {"coarse": 4, "shared": 16, "line": 16}
 
@@ -400,7 +404,7 @@ def describe(tier, seed, res):
     return {
         "rule": "per harness (H1 print||print+record, H2 print||capture, H3 log||print||export, H4/H5g/H5s live print||update "
                 "same/taller/shorter, H6 live auto-refresh thread, H7/H7x progress advance+refresh||print(||add_task), H8a/H8b "
-                "print||stop(/start/refresh), H9 live print||print, H10 transient print||stop) every schedule with <= bound preemptions at the stated granularity "
+                "print||stop(/start/refresh), H9 live print||print, H10 transient print||stop, H11/H12 refresh||update shorter/taller, H13 update||update) every schedule with <= bound preemptions at the stated granularity "
                 "(coarse = lock/event/thread/write operations; shared = + every line of the whitelisted modules except "
                 "per-call-only console functions, bytecodes in the locked read-modify-write functions; line = every line). "
                 "An execution is one complete schedule; non-trivial = at least two threads wrote to the file or a violation; "
